@@ -321,7 +321,7 @@ Proof.
     - destruct (nth_error (sl st) j) as [sj|]; cbn [fst snd sl] in *.
       + rewrite nth_set_nth_neq in Hb'; auto. rewrite Hn in Hb'. congruence.
       + rewrite Hn in Hb'. congruence. }
-  destruct e as [j|j f|k a|j t|j|j| |jh k a]; cbn [step] in *.
+  destruct e as [j|j f|k a|j t|j|j| |jh k a| ]; cbn [step] in *.
   - destruct (Nat.eq_dec j i); [subst; congruence|].
     unfold on_slot in *. destruct (nth_error (sl st) j); cbn [fst snd sl] in *;
       [rewrite nth_set_nth_neq in Hb; auto|]; rewrite Hn in Hb; congruence.
@@ -348,6 +348,15 @@ Proof.
   - destruct (nth_error (sl st) jh) as [sj|]; [|cbn [fst] in Hb; rewrite Hn in Hb; congruence].
     destruct (held_matches v k sj); [|cbn [fst] in Hb; rewrite Hn in Hb; congruence].
     apply OS; auto. intros E. apply aaa_apply_marks.
+  - destruct (queue st) as [|[j g] q]; [cbn [fst] in Hb; rewrite Hn in Hb; congruence|].
+    destruct (nth_error (sl st) j) as [sj|] eqn:Ej; [destruct (Nat.eqb (gen sj) g)|];
+      try (cbn [fst sl] in Hb; rewrite Hn in Hb; congruence).
+    unfold on_slot in *. cbn [sl nreq free queue free6] in *. destruct (Nat.eq_dec j i) as [E|E].
+    + subst j. rewrite Hn in *. cbn [fst snd sl] in *. rewrite (nth_set_nth_eq _ _ _ _ _ Hn) in Hb.
+      unfold sb_fail in *. cbn [ms] in *. destruct (live s).
+      * apply in_tag. rewrite <- in_rev. cbn [emit mo]. left. reflexivity.
+      * destruct (vsf v); cbn [emit ms] in Hb; congruence.
+    + rewrite Ej in *. cbn [fst snd sl] in *. rewrite nth_set_nth_neq in Hb; auto. rewrite Hn in Hb. congruence.
 Qed.
 
 Lemma on_slot_free : forall st j h,
@@ -388,7 +397,7 @@ Proof.
                            free st <= free (fst (on_slot st j h))).
   { intros j h Hh. unfold on_slot. destruct (nth_error (sl st) j) as [s|]; cbn [fst free]; auto. apply (Hh s). }
   pose proof terminate_mfree as TM.
-  destruct e as [j|j f|k a|j t|j|j| |jh k a]; cbn [step] in *.
+  destruct e as [j|j f|k a|j t|j|j| |jh k a| ]; cbn [step] in *.
   - exfalso. apply (Nat.lt_irrefl (free st)). eapply Nat.le_lt_trans; [|exact Hlt]. apply OS. intros s.
     unfold open_session. cbn [ms mn mfree mq mo].
     rewrite (proj2 (proj2 (lcp_apply_marks v j (fsm_open (vrfc v)) _ (fsm_open_ok (vrfc v))))).
@@ -427,4 +436,12 @@ Proof.
       * exact F.
     + exfalso. apply (Nat.lt_irrefl (free st)). eapply Nat.le_lt_trans; [|exact Hlt]. apply OS. intros s.
       apply (proj1 (aaa_apply_free v jh a _) Ea).
+  - exfalso. destruct (queue st) as [|[j g] q]; [cbn [fst] in Hlt; exact (Nat.lt_irrefl _ Hlt)|].
+    destruct (nth_error (sl st) j) as [sj|] eqn:Ej; [destruct (Nat.eqb (gen sj) g)|];
+      try (cbn [fst free] in Hlt; exact (Nat.lt_irrefl _ Hlt)).
+    rewrite on_slot_free in Hlt. cbn [sl nreq free queue free6] in Hlt. rewrite Ej in Hlt.
+    apply (Nat.lt_irrefl (free st)). eapply Nat.le_lt_trans; [|exact Hlt].
+    unfold sb_fail. cbn [ms]. destruct (live sj).
+    + cbn [emit mfree]. eapply Nat.le_trans; [|apply terminate_mfree]. cbn [emit mfree]. auto.
+    + destruct (vsf v); cbn [emit mfree]; auto.
 Qed.
